@@ -19,49 +19,59 @@ const N0: Tok = Tok::Native(0);
 const T1: Tok = Tok::Cw20(0);
 const T2: Tok = Tok::Cw20(1);
 
-/// one native token, two channels
-fn native_cfg(name: &str, thorough: bool) -> Cfg {
-    let mut c = Cfg::base(name);
-    c.funds = vec![(A, N0, 2), (B, N0, 1)];
+/// size parameters of a closed configuration
+#[derive(Clone, Copy)]
+struct Sz {
+    /// tokens of user A / user B
+    a: u128,
+    b: u128,
+    /// injected faults per history
+    faults: u8,
+    /// packets in flight
+    inflight: usize,
+    /// richer alphabets for packets that must be refused anyway (thorough tier)
+    rich: bool,
+}
+const QUICK: Sz = Sz { a: 2, b: 1, faults: 1, inflight: 2, rich: false };
+/// thorough, variant 1: two faults per history
+const DEEP: Sz = Sz { a: 2, b: 1, faults: 2, inflight: 2, rich: true };
+/// thorough, variant 2: more funds, three packets in flight
+const WIDE: Sz = Sz { a: 3, b: 1, faults: 1, inflight: 3, rich: true };
+
+fn apply_size(c: &mut Cfg, t: Tok, sz: Sz) {
+    c.funds = vec![(A, t, sz.a), (B, t, sz.b)];
     c.senders = vec![A, B];
-    c.send_toks = vec![N0];
-    c.proper = vec![Base::Tok(N0), Base::Unknown];
-    c.bad = bad_dens(N0);
-    c.fault_bound = 1;
-    c.fault_kinds = vec![Fault::Reject];
-    if thorough {
-        c.funds = vec![(A, N0, 3), (B, N0, 1)];
-        c.send_amounts = vec![1, 2, 3];
+    c.send_toks = vec![t];
+    c.send_amounts = (1..=sz.a).collect();
+    c.fault_bound = sz.faults;
+    c.max_inflight = sz.inflight;
+    if sz.rich {
         c.bad_amounts = vec![1, 3, U64MAX + 1];
+        c.bad_receivers = vec![Rcv::User(B), Rcv::Invalid];
         c.receivers = vec![Rcv::User(B), Rcv::User(A), Rcv::Invalid];
         c.raws = vec![0, 1, 2, 3];
-        c.fault_bound = 2;
-        c.max_inflight = 3;
     }
+}
+
+/// one native token, two channels
+fn native_cfg(name: &str, sz: Sz) -> Cfg {
+    let mut c = Cfg::base(name);
+    c.proper = vec![Base::Tok(N0), Base::Unknown];
+    c.bad = bad_dens(N0);
+    c.fault_kinds = vec![Fault::Reject];
+    apply_size(&mut c, N0, sz);
     c
 }
 
 /// one cw20 token on the allow list (with or without limit), two channels
-fn cw20_cfg(name: &str, limit: Option<u64>, thorough: bool) -> Cfg {
+fn cw20_cfg(name: &str, limit: Option<u64>, sz: Sz) -> Cfg {
     let mut c = Cfg::base(name);
     c.tokens = 1;
     c.allow_init = vec![(0, limit)];
-    c.funds = vec![(A, T1, 2), (B, T1, 1)];
-    c.senders = vec![A, B];
-    c.send_toks = vec![T1];
     c.proper = vec![Base::Tok(T1), Base::Unknown, Base::BadCw20, Base::Cw20NoContract];
     c.bad = bad_dens(T1);
-    c.fault_bound = 1;
     c.fault_kinds = if limit.is_some() { vec![Fault::Reject, Fault::Gas] } else { vec![Fault::Reject] };
-    if thorough {
-        c.funds = vec![(A, T1, 3), (B, T1, 1)];
-        c.send_amounts = vec![1, 2, 3];
-        c.bad_amounts = vec![1, 3, U64MAX + 1];
-        c.receivers = vec![Rcv::User(B), Rcv::User(A), Rcv::Invalid];
-        c.raws = vec![0, 1, 2, 3];
-        c.fault_bound = 2;
-        c.max_inflight = 3;
-    }
+    apply_size(&mut c, T1, sz);
     c
 }
 
@@ -81,21 +91,23 @@ fn default_cfg(name: &str, thorough: bool) -> Cfg {
     c.fault_kinds = vec![Fault::Reject, Fault::Gas];
     c.raws = vec![0];
     if thorough {
-        c.funds = vec![(A, T1, 2), (A, T2, 2), (B, T2, 1)];
+        c.funds = vec![(A, T1, 1), (A, T2, 2), (B, T2, 1)];
         c.senders = vec![A, B];
+        c.receivers = vec![Rcv::User(B), Rcv::User(A), Rcv::Invalid];
         c.fault_bound = 2;
     }
     c
 }
 
-/// native + cw20 together (thorough only)
-fn pair_cfg(name: &str) -> Cfg {
+/// native + cw20 together
+fn pair_cfg(name: &str, thorough: bool) -> Cfg {
     let mut c = Cfg::base(name);
     c.tokens = 1;
     c.allow_init = vec![(0, Some(1))];
-    c.funds = vec![(A, N0, 2), (A, T1, 2), (B, N0, 1)];
+    c.funds = vec![(A, N0, 1), (A, T1, 1), (B, N0, 1)];
     c.senders = vec![A, B];
     c.send_toks = vec![N0, T1];
+    c.send_amounts = vec![1];
     c.proper = vec![Base::Tok(N0), Base::Tok(T1), Base::Unknown];
     c.bad = vec![
         Den::OtherChannel(Base::Tok(N0)),
@@ -103,9 +115,15 @@ fn pair_cfg(name: &str) -> Cfg {
         Den::Foreign(Base::Tok(N0)),
         Den::OtherPort(Base::Tok(T1)),
     ];
-    c.recv_amounts = vec![1, 2, 3];
+    c.recv_amounts = vec![1, 2];
     c.fault_bound = 1;
     c.fault_kinds = vec![Fault::Reject, Fault::Gas];
+    c.raws = vec![0];
+    if thorough {
+        c.funds = vec![(A, N0, 2), (A, T1, 2), (B, N0, 1)];
+        c.send_amounts = vec![1, 2];
+        c.recv_amounts = vec![1, 2, 3];
+    }
     c
 }
 
@@ -182,16 +200,22 @@ fn configs(prop: &str, thorough: bool) -> Vec<(Cfg, Option<usize>)> {
     match prop {
         "C11" => {
             let p = Props { c11: true, ..Default::default() };
-            let mut v = vec![
-                native_cfg("C11/native/2ch", thorough),
-                cw20_cfg("C11/cw20-listed-limit1/2ch", Some(1), thorough),
-                default_cfg("C11/cw20-T2-under-default-limit/2ch", thorough),
-            ];
-            if thorough {
-                v.push(cw20_cfg("C11/cw20-listed-unlimited/2ch", None, thorough));
-                v.push(pair_cfg("C11/native+cw20/2ch"));
-                v.push(v1_cfg("C11/upgrade/v1-0.11.1", "0.11.1", false));
-                v.push(v2_cfg("C11/upgrade/v2-0.13.0-inflight", false));
+            let mut v = vec![];
+            if !thorough {
+                v.push(native_cfg("C11/native/2ch", QUICK));
+                v.push(cw20_cfg("C11/cw20-listed-limit1/2ch", Some(1), QUICK));
+                v.push(default_cfg("C11/cw20-T2-under-default-limit/2ch", false));
+                v.push(pair_cfg("C11/native+cw20/2ch", false));
+            } else {
+                v.push(native_cfg("C11/native/2ch/faults2", DEEP));
+                v.push(native_cfg("C11/native/2ch/funds4-inflight3", WIDE));
+                v.push(cw20_cfg("C11/cw20-listed-limit1/2ch/faults2", Some(1), DEEP));
+                v.push(cw20_cfg("C11/cw20-listed-limit1/2ch/funds4-inflight3", Some(1), WIDE));
+                v.push(cw20_cfg("C11/cw20-listed-unlimited/2ch/faults2", None, DEEP));
+                v.push(default_cfg("C11/cw20-T2-under-default-limit/2ch", true));
+                v.push(pair_cfg("C11/native+cw20/2ch", true));
+                v.push(v1_cfg("C11/upgrade/v1-0.11.1", "0.11.1", true));
+                v.push(v2_cfg("C11/upgrade/v2-0.13.0-inflight", true));
             }
             for mut c in v {
                 c.props = p.clone();
@@ -202,16 +226,23 @@ fn configs(prop: &str, thorough: bool) -> Vec<(Cfg, Option<usize>)> {
             let p = Props { c12: true, ..Default::default() };
             let mut v = vec![];
             // governance configurations × fresh instantiation
-            v.push(native_cfg("C12/fresh/native/no-allowlist-no-default", thorough));
-            v.push(cw20_cfg("C12/fresh/cw20/listed-limit1", Some(1), thorough));
-            v.push(default_cfg("C12/fresh/cw20/T1-listed+T2-under-default", thorough));
-            if thorough {
-                v.push(cw20_cfg("C12/fresh/cw20/listed-unlimited", None, thorough));
-                v.push(pair_cfg("C12/fresh/native+cw20"));
+            if !thorough {
+                v.push(native_cfg("C12/fresh/native/no-allowlist-no-default", QUICK));
+                v.push(cw20_cfg("C12/fresh/cw20/listed-limit1", Some(1), QUICK));
+                v.push(default_cfg("C12/fresh/cw20/T1-listed+T2-under-default", false));
+                v.push(pair_cfg("C12/fresh/native+cw20", false));
+            } else {
+                v.push(native_cfg("C12/fresh/native/no-allowlist-no-default/faults2", DEEP));
+                v.push(native_cfg("C12/fresh/native/no-allowlist-no-default/funds4-inflight3", WIDE));
+                v.push(cw20_cfg("C12/fresh/cw20/listed-limit1/faults2", Some(1), DEEP));
+                v.push(cw20_cfg("C12/fresh/cw20/listed-limit1/funds4-inflight3", Some(1), WIDE));
+                v.push(cw20_cfg("C12/fresh/cw20/listed-unlimited/faults2", None, DEEP));
+                v.push(default_cfg("C12/fresh/cw20/T1-listed+T2-under-default", true));
+                v.push(pair_cfg("C12/fresh/native+cw20", true));
             }
             {
                 // cw20 refused: not listed, no default; governance may list it later
-                let mut c = cw20_cfg("C12/fresh/cw20/unlisted-then-allowed", Some(1), false);
+                let mut c = cw20_cfg("C12/fresh/cw20/unlisted-then-allowed", Some(1), QUICK);
                 c.allow_init = vec![];
                 c.gov_actors = vec![G];
                 c.allow_tokens = vec![0];
@@ -225,7 +256,7 @@ fn configs(prop: &str, thorough: bool) -> Vec<(Cfg, Option<usize>)> {
             v.push(v2_cfg("C12/upgrade/v2-0.13.0-inflight", thorough));
             {
                 // same-version migrate at every reachable state
-                let mut c = cw20_cfg("C12/same-version-migrate-everywhere", Some(1), false);
+                let mut c = cw20_cfg("C12/same-version-migrate-everywhere", Some(1), QUICK);
                 c.channels = 1;
                 c.migrate_limits = vec![None, Some(2)];
                 c.fault_bound = if thorough { 1 } else { 0 };
@@ -352,8 +383,20 @@ fn run(prop: &str, tier: &str) -> i32 {
         eprintln!("fam-ics20 does not serve {prop}");
         return 2;
     }
+    let mut cfgs = cfgs;
+    let filter = std::env::var("ICS20_ONLY").ok();
+    if let Some(f) = &filter {
+        cfgs.retain(|(c, _)| c.name.contains(f.as_str()));
+        eprintln!("NOTE: ICS20_ONLY={f}: exploring {} configuration(s) only", cfgs.len());
+        if cfgs.is_empty() {
+            return 2;
+        }
+    }
     let known = Known::load(prop);
     let mut rep = Report::new(prop, tier, "ics20");
+    if let Some(f) = &filter {
+        rep.extra.insert("configuration_filter".into(), serde_json::json!(f));
+    }
     let (alpha, oracle) = describe(prop);
     rep.alphabet = alpha.into();
     rep.oracle = oracle.into();
